@@ -416,7 +416,8 @@ func (c *compiler) checkLR0() {
 }
 
 func (c *compiler) addShift(from, to *state) {
-	if len(from.shifts) == 0 && len(from.reduce) > 0 {
+	if len(from.reduce) > 0 && (len(from.shifts) == 0 || int(to.symbol) < c.grammar.Terminals) {
+		// A state with a reduction needs lookahead as soon as it can also shift a terminal.
 		from.lr0 = false
 	}
 	from.shifts = append(from.shifts, to.index)
